@@ -128,8 +128,8 @@ class Interp:
                 if isinstance(node.op, ast.FloorDiv):
                     return a // b
                 return a % b
-            except TypeError as exc:
-                raise AnalysisError(f"guard language: cannot evaluate {text!r}: {exc}") from exc
+            except TypeError:
+                return Unknown("arith " + text)
         if isinstance(node, ast.Subscript):
             base = self.ev(node.value)
             if isinstance(base, Unknown):
